@@ -108,23 +108,29 @@ fn size_case(rep: &mut Report, rng: &mut Rng, idx: u64) {
         }
     };
     let use_json = rng.chance(1, 3);
-    let doc = if use_json {
+    // TOML has signed 64-bit integers only; strings are written with JSON's escapes, which TOML shares
+    let use_toml = !use_json && rng.chance(1, 3) && !(as_int && n > i64::MAX as u128);
+    let doc = if use_toml {
+        if as_int { format!("limit = {}\n", lit) } else { format!("limit = {}\n", serde_json::to_string(&lit).unwrap()) }
+    } else if use_json {
         if as_int { format!("{{\"limit\": {}}}", lit) } else { format!("{{\"limit\": {}}}", serde_json::to_string(&lit).unwrap()) }
     } else if as_int {
         format!("limit: {}\n", lit)
     } else {
         format!("limit: {}\n", yaml_quote(&lit))
     };
-    rep.case(&format!("size|{}|{}|{}", lit, as_int, use_json), true);
+    rep.case(&format!("size|{}|{}|{}|{}", lit, as_int, use_json, use_toml), true);
     let r = trap::catch(|| {
-        if use_json {
+        if use_toml {
+            toml::from_str::<SizeTriggerConfig>(&doc).map_err(|e| e.to_string())
+        } else if use_json {
             serde_json::from_str::<SizeTriggerConfig>(&doc).map_err(|e| e.to_string())
         } else {
             serde_yaml::from_str::<SizeTriggerConfig>(&doc).map_err(|e| e.to_string())
         }
     });
     let d = json!({"kind": "size limit", "literal": lit, "scalar_form": if as_int { "integer" } else { "string" },
-        "format": if use_json { "json" } else { "yaml" }, "document": doc, "expected": format!("{:?}", want)});
+        "format": if use_toml { "toml" } else if use_json { "json" } else { "yaml" }, "document": doc, "expected": format!("{:?}", want)});
     let got = match r {
         Err(p) => {
             rep.violation(&format!("C20:panic:size:{}", p.site()), json!({"case": d, "panic": p.message}));
